@@ -1190,25 +1190,30 @@ Definition iface_poll_at (cx : ctx) (s : socket) : outcome (option Z) :=
 
 (* The egress loop of Interface::poll (mod.rs l.490-495, socket_egress l.700): dispatch is called
    until it emits nothing; [budget] = frames the device still accepts (None = unlimited); a refused
-   frame (Exhausted) ends the loop.  Returns the frames sent, in order.  [fuel] bounds the loop. *)
-Fixpoint iface_poll_egress (fuel : nat) (cx : ctx) (s : socket) (budget : option Z)
-  : outcome (socket * list packet * list Z * bool) :=
+   frame (Exhausted) ends the loop.  Returns the frames sent (in order), the tags, and whether the
+   loop ended by itself ([false] = [fuel] ran out).  Accumulator-passing so that the extracted code
+   runs in constant stack. *)
+Fixpoint iface_poll_egress_acc (fuel : nat) (cx : ctx) (s : socket) (budget : option Z)
+         (sent : list packet) (tags : list Z) : outcome (socket * list packet * list Z * bool) :=
   match fuel with
-  | O => Ok (s, [], [], false)
+  | O => Ok (s, rev_append sent [], rev_append tags [], false)
   | S fuel' =>
       let emit_ok := match budget with Some b => b >? 0 | None => true end in
       do d <- tcp_dispatch cx s emit_ok;
-      let '(s, res, tags) := d in
+      let '(s, res, tg) := d in
+      let tags := rev_append tg tags in
       match res with
-      | DNothing => Ok (s, [], tags, true)
-      | DEmitFailed _ => Ok (s, [], tags, true)
+      | DNothing => Ok (s, rev_append sent [], rev_append tags [], true)
+      | DEmitFailed _ => Ok (s, rev_append sent [], rev_append tags [], true)
       | DSent p =>
           let budget := match budget with Some b => Some (b - 1) | None => None end in
-          do rest <- iface_poll_egress fuel' cx s budget;
-          let '(s', ps, tags', fin) := rest in
-          Ok (s', p :: ps, rev_append (rev_append tags []) tags', fin)
+          iface_poll_egress_acc fuel' cx s budget (p :: sent) tags
       end
   end.
+
+Definition iface_poll_egress (fuel : nat) (cx : ctx) (s : socket) (budget : option Z)
+  : outcome (socket * list packet * list Z * bool) :=
+  iface_poll_egress_acc fuel cx s budget [] [].
 
 (* ---------- events: one API call, one ingress segment, or one dispatch ---------- *)
 Inductive event :=
